@@ -55,7 +55,6 @@ extern "C" int c06c_print_i_buff_sz(void);
 extern "C" const char *c06c_null_str(void);
 extern "C" unsigned long c06c_null_str_size(void);
 extern "C" unsigned c06c_ops(int i);
-extern "C" int c06c_ptr_digits(void);
 extern "C" unsigned long c06c_sizeof_ret(void);
 extern "C" unsigned long c06c_n_size(int i);
 
@@ -1001,23 +1000,53 @@ static void run_one(const std::vector<std::string> &w, out &o)
 // ---------------------------------------------------------------- round 3: consts, seq, premain
 static std::string consts_line(out &o)
 {
-    std::string nul(c06c_null_str(), c06c_null_str() + c06c_null_str_size());
-    std::string ns;
-    for (int i = 0; i < 8; i++) ns += (i ? "," : "") + std::to_string(c06c_n_size(i));
+    // Round 3b: PRINT_I_BUFF_SZ, PRINT_S_NULL_STR, the OPS_* masks and the number of digits of %p are INTERNAL
+    // to printf_impl.c - the property fixes none of them.  They are read where they still exist under these
+    // names (harness/C06_consts.c, every use #ifdef-guarded) and reported as TAGS; the compared result keeps what
+    // the public signature and the platform fix: INT_MAX, sizeof of __printf's return type, sizeof of the types
+    // ISO names for %n.
+    int bsz = c06c_print_i_buff_sz();
+    o.tag(bsz < 0 ? "PRINT_I_BUFF_SZ=unknown" : ("PRINT_I_BUFF_SZ=" + std::to_string(bsz)).c_str());
+    if (bsz >= 0 && bsz != 23) o.tag("PRINT_I_BUFF_SZ-differs-from-model");
+    if (bsz >= 0 && bsz < 23) o.fail("PRINT_I_BUFF_SZ below 23: 22 octal digits of 2^64-1 and the terminator do not fit");
+    if (c06c_null_str())
+    {
+        std::string nul(c06c_null_str(), c06c_null_str() + c06c_null_str_size());
+        o.tag(("PRINT_S_NULL_STR=" + hex(nul)).c_str());
+        if (hex(nul) != "286e756c6c2900") o.tag("PRINT_S_NULL_STR-differs-from-model");
+    }
+    else
+        o.tag("PRINT_S_NULL_STR=unknown");
     // the model treats `ops` as a record of independent booleans: sound only if every OPS_* is its own bit
+    // (judged on the masks that are still macros of these names)
     bool single = true;
     unsigned seen = 0;
+    int known = 0;
     for (int i = 0; i < 17; i++)
     {
         unsigned m = c06c_ops(i);
-        if (m == 0 || (m & (m - 1)) || (seen & m)) single = false;
+        if (m == 0) continue;
+        known++;
+        if ((m & (m - 1)) || (seen & m)) single = false;
         seen |= m;
     }
     if (!single) o.fail("the OPS_* masks are not distinct single bits");
-    if (c06c_print_i_buff_sz() < 23) o.fail("PRINT_I_BUFF_SZ below 23: 22 octal digits of 2^64-1 and the terminator do not fit");
-    return "PRINT_I_BUFF_SZ=" + std::to_string(c06c_print_i_buff_sz()) + " PRINT_S_NULL_STR=" + hex(nul) +
-           " ptr_digits=" + std::to_string(c06c_ptr_digits()) + " int_max=" + std::to_string(INT_MAX) +
-           " sizeof_pc=" + std::to_string(c06c_sizeof_ret()) + " n_sizes=" + ns + " ops_single_bits=" + (single ? "1" : "0");
+    o.tag(("ops_masks_known=" + std::to_string(known)).c_str());
+    o.tag(single ? "ops_single_bits=1" : "ops_single_bits=0");
+    {
+        // digits of a %p, behaviourally: <%p> of (void *)1
+        Sink sk;
+        Call c0{W_PRINTF, &sk, nullptr, 0};
+        std::vector<Arg> pa(1);
+        pa[0].kind = 'p';
+        pa[0].v = 1;
+        dispatch(&c0, "<%p>", pa, 0);
+        long digs = (long)sk.out.size() - 4;
+        o.tag(("ptr_digits=" + std::to_string(digs)).c_str());
+    }
+    std::string ns;
+    for (int i = 0; i < 8; i++) ns += (i ? "," : "") + std::to_string(c06c_n_size(i));
+    return "int_max=" + std::to_string(INT_MAX) + " sizeof_pc=" + std::to_string(c06c_sizeof_ret()) + " n_sizes=" + ns;
 }
 
 // calls made BEFORE main(): a constructor with the highest priority runs a few ops through the same code path
@@ -1686,6 +1715,10 @@ static void gen_round3(rng &r, bool th)
         // (exactly fitting with a long output: the model's snprintf writes through List.set, quadratic - 4 000 characters)
         emit_n("sn", 4001, B("%.4000s"), {AS(big, true)});
         emit_n("vsn", 4000, B("%.4000s"), {AS(big, true)});
+        // round 3b: the driver runs the closed form `vsnprintfFast` (theorem vsnprintf_fast_eq): the long output
+        // exactly fitting its buffer (declared size = allocation = 330 001 bytes)
+        emit_s("sn", "330001", B("%s"), {AS(big, true)});
+        emit_s("vsn", "330003", B("<%s>"), {AS(big, true)});
         emit_n("fd", 299999, B("%s"), {AS(big, true)});
         emit_n("fdv", -1, B("%s"), {AS(big, true)});
     }
